@@ -425,6 +425,11 @@ fn emit_text(out: &mut Out, text: &[u8], class: &str) {
 	let line = show_parse(&parsed);
 	out.case(&format!("C17p {}", hex(text)), &line, line != "err");
 	out.count(&format!("text_{class}_{}", line.split(' ').next().unwrap()));
+	// the parser's outcome on a &str is Ok or Err; a panic is never a legitimate answer (the model has no
+	// panic outcome since /repo a22a8569) – report it with the text so that it can be replayed
+	if let Err(m) = &parsed {
+		out.oracle(false, "C17 parser: parse_str panicked on a text", json!({"kind": "parse-panic", "class": class}), json!({"case": format!("C17p {}", hex(text)), "panic": trunc(m, 200), "len": text.len()}));
+	}
 	if let (Ok(Ok(v)), Ok(sv)) = (&parsed, serde_json::from_slice::<serde_json::Value>(text)) {
 		let ok = same_serde(v, &sv) || has_dup_keys(text);
 		out.oracle(ok, "C17 standard-parser: text accepted by both parsers with different meaning", json!({"kind": "serde-text", "class": class}), json!({"case": format!("C17p {}", hex(text))}));
@@ -662,6 +667,37 @@ pub fn run(args: &Args) {
 				emit_text(&mut out, &m, "mutated");
 				let m2 = mutate(&mut rng, v.stringify().as_bytes());
 				emit_text(&mut out, &m2, "mutated");
+			}
+		}
+	}
+	// long malformed documents with multi-byte characters straddling ABSOLUTE byte offsets that matter to the
+	// code around the parser (ring buffer 16·k, error-context cuts 256/1024, read buffer 4096/8192)
+	for &off in &[15usize, 16, 17, 31, 32, 255, 256, 257, 511, 512, 1023, 1024, 1025, 4095, 4096, 4097, 8192] {
+		for ch in ["é", "€", "😊"] {
+			for back in 0..ch.len() {
+				// the character starts `back` bytes before `off`, so that it covers offset `off` (or ends right at it)
+				let start = off.saturating_sub(back);
+				for (head, tail) in [("[\"", "\", x"), ("{\"k\":\"", "\" 1}"), ("[\"", ""), ("  [1, \"", "\\u12")] {
+					if start < head.len() {
+						continue;
+					}
+					let mut t = String::from(head);
+					while t.len() < start {
+						t.push('a');
+					}
+					t.push_str(ch);
+					t.push_str("bbbbbbbbbbbbbbbbbbbb");
+					t.push_str(tail);
+					emit_text(&mut out, t.as_bytes(), "offset");
+					// and the same text completed to a valid document
+					let mut ok = String::from("[\"");
+					while ok.len() < start {
+						ok.push('a');
+					}
+					ok.push_str(ch);
+					ok.push_str("\"]");
+					emit_text(&mut out, ok.as_bytes(), "offset");
+				}
 			}
 		}
 	}
